@@ -94,6 +94,23 @@ func c17Enumerate(o *Obs, t *tree.Tree, tx *ref.Taxa, collectFirst bool, ctx str
 			o.Fail("nni_structure", what+" after Undo: "+ps[0].Kind+": "+ps[0].Detail, orig, tag...)
 			return false
 		}
+		if i%3 == 1 {
+			// the same rearrangement object once more (evaluate all neighbours, then go to the one kept): it
+			// gives the same neighbour and is undone the same way
+			o.Ev("nni_second_apply", 1)
+			if err := re.Apply(); !o.Check(err == nil, "nni_apply_error", what+", second Apply: "+fmt.Sprint(err), orig, tag...) {
+				return false
+			}
+			if !o.Check(t.Newick() == after, "nni_second_apply_text", fmt.Sprintf("%s: the second Apply of the same rearrangement gives %s, the first gave %s", what, Trunc(t.Newick(), 400), Trunc(after, 400)), orig, tag...) {
+				return false
+			}
+			if err := re.Undo(); !o.Check(err == nil, "nni_undo_error", what+", second Undo: "+fmt.Sprint(err), orig, tag...) {
+				return false
+			}
+			if !o.Check(t.Newick() == orig, "nni_undo_text", fmt.Sprintf("%s: after the second Undo the tree writes %s", what, Trunc(t.Newick(), 600)), orig, tag...) {
+				return false
+			}
+		}
 		return true
 	}
 	n := 0
